@@ -378,6 +378,25 @@ func (c *c15) Run(cs core.Case) core.Result {
 					}
 				}
 			}
+			// reads: the archive must not make the program open files outside
+			// its directory either (their content would flow into results)
+			for _, ev := range tr.Events {
+				if ev.Mutates || (ev.Call != "openat" && ev.Call != "open") || ev.Path == "" || !strings.HasPrefix(ev.Path, t.root+"/") {
+					continue
+				}
+				rel, _ := filepath.Rel(t.root, ev.Path)
+				if inside(rel) || rel == "work/arch" {
+					continue
+				}
+				if st, err := os.Stat(ev.Path); err == nil && st.IsDir() {
+					continue
+				}
+				if ev.OK {
+					r.Violate("read-outside-archive-directory|"+op, "%s: par %s opened %q, which lies outside the archive's directory, for reading", desc, op, ev.Path)
+				} else {
+					r.Count("failed_read_attempts_outside", 1)
+				}
+			}
 			judgeSnap("cli-" + op)
 			r.Count("cli_runs", 1)
 		}
